@@ -126,6 +126,22 @@ impl State {
     }
 }
 
+#[cfg(dryoc_verif)]
+impl State {
+    /// Verification hook: builds a state from raw key and nonce.
+    pub fn verif_from_parts(k: &Key, nonce: &Nonce) -> Self {
+        Self {
+            k: *k,
+            nonce: *nonce,
+        }
+    }
+
+    /// Verification hook: returns a copy of the raw key and nonce.
+    pub fn verif_parts(&self) -> (Key, Nonce) {
+        (self.k, self.nonce)
+    }
+}
+
 /// Generates a random stream key using [crate::rng::copy_randombytes].
 pub fn crypto_secretstream_xchacha20poly1305_keygen(key: &mut Key) {
     copy_randombytes(key);
